@@ -198,7 +198,8 @@ func c18() {
 		defer th.Remove()
 		listing := filepath.Join(th.Dir, "listing.txt")
 		os.WriteFile(listing, []byte(listingForNumbers(r, found, cx.goarch == "386", cx.table)), 0o644)
-		target := filepath.Join(th.Dir, "target")
+		// unusual but legal file names of the binary (spaces, non-ASCII, leading dash, shell characters)
+		target := filepath.Join(th.Dir, []string{"target", "my target", "ziél-バイナリ", "-dash", "a;b&c$(x)", "t\tab", "UPPER.exe", "x.y.z-0123456789"}[i%8])
 		copyFile(target, elf[cx.goarch])
 		// flags
 		format := []string{"config", "config", "code"}[i%3]
@@ -247,7 +248,7 @@ func c18() {
 			argv = append(argv, "-pkg", "profile")
 		}
 		argv = append(argv, target)
-		res, err := th.Run(vlib.ToolRun{Argv: argv, FakeMode: "emit", Listing: listing})
+		res, err := th.Run(vlib.ToolRun{Argv: argv, FakeMode: "emit", Listing: listing, Env: vlib.HostileEnvs[i%len(vlib.HostileEnvs)]})
 		desc := fmt.Sprintf("case %d: %s, discovered=%s (%d sites), -b %v, -allow %v, format=%s debug=%v out=%v", i, cx.name, shape, len(found), bl, al, format, debug, outFile != "")
 		if err != nil || res.TimedOut {
 			run.SoftInconclusive("profiler run failed: " + desc)
